@@ -765,12 +765,15 @@ def glue_trio() -> None:
         # Find the thread that's hosting the sync_fn, and the actual frames
         # where the sync_fn and its callees are running. Several threads
         # can have this very name (if it was given explicitly); the one
-        # that works for us shares our task_register.
+        # that works for us shares our task_register. The name is only
+        # a hint then, and not a reliable one: Thread.name holds a plain
+        # str copy of a name that is an instance of a str subclass, and
+        # the function may rename the thread it runs on.
         task_register = frame.pyframe.f_locals.get("task_register")
         inner_frame: Optional[types.FrameType] = None
         previous: Optional[types.FrameType] = None
         for thread in threading.enumerate():
-            if thread.name is not thread_name:
+            if task_register is None and thread.name is not thread_name:
                 continue
             inner_frame = sys._current_frames().get(thread.ident or 0)
             previous = None
